@@ -342,6 +342,8 @@ func Gen(cfg Config) func(t *rapid.T) Script {
 					op.Mode = 1 // the same bytes as an opaque document
 				} else if cfg.Retype && (k == "image" || k == "index") && rapid.IntRange(0, 7).Draw(t, "retypeCross") == 0 {
 					op.Mode = 2 // image bytes as an index, index bytes as an image
+				} else if cfg.Retype && (k == "image" || k == "index") && rapid.IntRange(0, 9).Draw(t, "retypeCase") == 0 {
+					op.Mode = 3 // its own media type spelled in another letter case
 				}
 				op.T = -1
 				if rapid.IntRange(0, 2).Draw(t, "tagged") > 0 {
